@@ -1726,6 +1726,18 @@ func rulePHRASELOOP(c *Ctx, r *Report) {
 func rulePARSEERR(c *Ctx, r *Report) {
 	const rule = "PARSE-ERR"
 	r.doc(rule, "a lexical error cannot be accepted: ACCEPT requires TEOF from Peek; the shift predicate never shifts TErr (table row S1); after an error the stream reports EOF with TErr pending, so the reduce path runs out of stack and fails — here: error tokens carry Typ TErr, which differs from TEOF, and the shift predicate's first tests reject TEOF/TErr")
+	neverShiftEnd(c, r, rule, "the shift predicate shifts an error or end-of-input token for some operator on the stack: a lexical error could end up inside an accepted tree")
+}
+
+// SHIFT-END (C01): the same table fact read for termination — the lexer keeps answering TEOF (and, after an
+// error, TEOF again) without consuming anything, so a parse loop that shifts the end-of-input token never stops.
+func ruleSHIFTEND(c *Ctx, r *Report) {
+	const rule = "SHIFT-END"
+	r.doc(rule, "the shift predicate, extracted as a table over all TokType × TokType pairs, never shifts TEOF or TErr whatever operator is on top of the stack: reading the end of input consumes nothing (the lexer reports it again on every call), so shifting it would make the parse loop run forever while the stack grows")
+	neverShiftEnd(c, r, rule, "the shift predicate shifts the end-of-input (or error) token for some operator on the stack: the lexer reports end of input again on the next call, so the parse loop shifts forever")
+}
+
+func neverShiftEnd(c *Ctx, r *Report, rule, msg string) {
 	pr := c.parserPreamble(r, rule)
 	if pr == nil {
 		return
@@ -1763,7 +1775,7 @@ func rulePARSEERR(c *Ctx, r *Report) {
 	if bad == 0 {
 		r.ok(rule, "never-shift-err-eof", c.pos(pr.ShouldShift.Pos()), fmt.Sprintf("%d (curr, Err/EOF) pairs all reduce", 2*len(domain)))
 	} else {
-		r.bad(rule, "never-shift-err-eof", c.pos(pr.ShouldShift.Pos()), "the shift predicate shifts an error or end-of-input token for some operator on the stack: a lexical error could end up inside an accepted tree")
+		r.bad(rule, "never-shift-err-eof", c.pos(pr.ShouldShift.Pos()), msg)
 	}
 }
 
